@@ -133,7 +133,7 @@ def check_spec(spec: NetSpec, label, st: Stats, plan):
                 st.inc("balances_checked", 1 + spec.n)
         if full:
             # the same network reached by editing a different, already stepped network in place
-            for (vlabel, val), emode in zip(list(valgen.vectors(spec, 0)) * 2, ("links", "attachments", "replace")):
+            for (vlabel, val), emode in zip(list(valgen.vectors(spec, 0)) * 2, ("links", "attachments", "replace", "params")):
                 st.inc("executions", 2)
                 case = {"spec": spec.describe(), "config": label, "P": P, "val": {f"{k[0]}.{k[1]}": v for k, v in val.items()},
                         "engine": "numpy", "edited": emode}
@@ -244,8 +244,8 @@ def plans(tier, seed):
     pal = (seed + 1) % 3
     if tier == "quick":
         jobs = [({"np_d": 1, "cs_d": 1, "psets": [0, 1], "cs_sym": ["SX"]},
-                 [(lab, s) for _, lab, s in all_specs(3, 3, 1, pal)])]
-        bounds = {"shapes": "(n,m)<=(3,3)", "config_deviation": 1, "value_deviation": 1, "palette": pal}
+                 [(lab, s) for _, lab, s in all_specs(3, 3, 1, pal)] + [(f"harness:{k}", s) for k, s in harness_specs(pal).items()])]
+        bounds = {"shapes": "(n,m)<=(3,3) + the harness list (3-way splits and merges, diamond, 12-segment links)", "config_deviation": 1, "value_deviation": 1, "palette": pal}
     else:
         a = [(lab, s) for _, lab, s in all_specs(3, 4, 1, pal)]
         a2 = [(lab, s) for _, lab, s in all_specs(3, 3, 2, pal)]
